@@ -85,6 +85,7 @@ type sim struct {
 	nAcc     int
 	nRej     int
 	msgMode  bool
+	exact    bool // byte-exact class: no AEAD oracle inputs in the Coq case
 	nmsg     int
 	big      []byte
 }
@@ -341,7 +342,11 @@ func (s *sim) feed(pkt []byte, src uint64, label string) {
 	if panicked {
 		code = 2
 	}
-	s.ops = append(s.ops, hv.App("I", hv.N(src), hx(pkt), hv.Ni(ki), optHex(or, ok)))
+	if s.exact {
+		s.ops = append(s.ops, hv.App("I", hv.N(src), hx(pkt), hv.Ni(ki), "None"))
+	} else {
+		s.ops = append(s.ops, hv.App("I", hv.N(src), hx(pkt), hv.Ni(ki), optHex(or, ok)))
+	}
 	s.ob(code, 0, nil, nil, after)
 	s.desc = append(s.desc, fmt.Sprintf("in(from a%d, %s, %d bytes)->%d", src, label, len(pkt), code))
 	st := feedStats[labelKind(label)]
@@ -452,15 +457,19 @@ func (s *sim) write(kind, i int, mt byte, m []byte) {
 		pk = append(pk, e.pkt)
 		ds = append(ds, addrID(e.dst))
 	}
+	hdrC, ctC := hx(hdr), hx(ct)
+	if s.exact {
+		hdrC, ctC = "(hx 0 [])", "(hx 0 [])"
+	}
 	switch kind {
 	case kWM:
-		s.ops = append(s.ops, hv.App("WM", hv.Ni(i), hx(m), hx(hdr), hx(ct)))
+		s.ops = append(s.ops, hv.App("WM", hv.Ni(i), hx(m), hdrC, ctC))
 		s.desc = append(s.desc, fmt.Sprintf("s%d.WriteMsg(%d bytes)->%d", i, len(m), code))
 	case kWR:
-		s.ops = append(s.ops, hv.App("WR", hv.Ni(i), hx(m), hx(hdr), hx(ct)))
+		s.ops = append(s.ops, hv.App("WR", hv.Ni(i), hx(m), hdrC, ctC))
 		s.desc = append(s.desc, fmt.Sprintf("s%d.Write(%d bytes)->(%d,%d)", i, len(m), n, code))
 	case kSD:
-		s.ops = append(s.ops, hv.App("SD", hv.Ni(i), hv.Ni(int(mt)), hx(m), hx(hdr), hx(ct)))
+		s.ops = append(s.ops, hv.App("SD", hv.Ni(i), hv.Ni(int(mt)), hx(m), hdrC, ctC))
 		s.desc = append(s.desc, fmt.Sprintf("s%d.send(%#x,%x)->%d", i, mt, m, code))
 	}
 	s.ob(code, n, pk, ds, after)
@@ -598,6 +607,12 @@ func (s *sim) emit(idx int) {
 	fn := "c03_ok"
 	if s.prop == "C15" {
 		fn = "c15_ok"
+	}
+	if s.exact {
+		fn = "c03x_ok"
+		if s.prop == "C15" {
+			fn = "c15x_ok"
+		}
 	}
 	specs := make([]string, len(s.fs))
 	for i, f := range s.fs {
